@@ -45,6 +45,8 @@ def hyb_dec_lines(cid, c):
 
 def run(chk, tier, replay):
     binary = common.build_harness(E.HARNESS)
+    if replay:
+        return E.replay_file(chk, binary, replay, alt_lines, judge_alt)
     thorough = tier != "quick"
     chk.assumptions += [
         "TLA+ format modules validated by MC_HybridSelf / MC_EncSelf before judging (round trips, Encodings.md worked examples)",
@@ -128,33 +130,8 @@ def run(chk, tier, replay):
     blines, bown = [], {}
     for i, c in enumerate(alt + canon):
         cid = "b%d" % i
-        k = c["kind"]
         bown[cid] = c
-        if k == "hyb":
-            blines += hyb_dec_lines(cid, c)
-        elif k == "delta":
-            blines.append("%s d%d_dec %d %s" % (cid, 32 if c["L"] == 4 else 64, len(c["vals"]), hexs(c["bytes"])))
-        elif k == "str":
-            n = len(c["strs"])
-            blines.append("%sA dl_dec %d %s" % (cid, n, hexs(c["dlen"])))
-            blines.append("%sB ds_dec %d %d %s" % (cid, n, sum(len(s) for s in c["strs"]), hexs(c["dstr"])))
-        elif k == "dict":
-            blines.append("%s dict_dec %d %d %s %s %d" % (cid, c["t"], c["dcount"], hexs(c["dict"]), hexs(c["idx"]), len(c["vals"])))
-        elif k == "bp":
-            n, bw = len(c["w"]), c["bw"]
-            groups = (n + 7) // 8
-            blines.append("%s bp_unp %d %d %s" % (cid, bw, n, hexs(list(c["bytes"]) + [0] * (groups * bw - len(c["bytes"])))))
-        elif k == "bitw":
-            blines.append("%s br_rd %s %s" % (cid, hexs(c["bytes"]), E.csv([i["w"] for i in c["items"]])))
-        elif k == "plain":
-            blines.append("%s plain_dec %d %d %d %s" % (cid, c["t"], c["tlen"], len(c["vals"]), hexs(c["bytes"])))
-        elif k == "bss":
-            K, n = c["K"], len(c["vals"])
-            blines.append("%s bss_dec g %d %d %s" % (cid, K, n, hexs(c["bytes"])))
-            if K == 4:
-                blines.append("%sF bss_dec f 4 %d %s" % (cid, n, hexs(c["bytes"])))
-            if K == 8:
-                blines.append("%sD bss_dec d 8 %d %s" % (cid, n, hexs(c["bytes"])))
+        blines += alt_lines(cid, c)
     # what carquet's own encoder writes for the hybrid value sequences (for the "not carquet's own
     # form" rule of the non-trivial count)
     own = {}
@@ -165,7 +142,7 @@ def run(chk, tier, replay):
     bres, bfaults, _ = common.run_harness_leaks(binary, blines + olines, leak_every=512)
     T('harness b (%d lines)' % len(blines + olines))
     fam_b = {}
-    other_geom_rejected = 0
+    bstats = {}
 
     by_case = {}
     for ln in blines:
@@ -187,106 +164,11 @@ def run(chk, tier, replay):
         st = fam_b.setdefault(k, {"streams": 0, "mismatch": 0})
         st["streams"] += 1
         before = len(chk.violations)
-        nontrivial = True
-        if k == "hyb":
-            vals = E.hyb_values(c)
-            n, bw = len(vals), c["bw"]
-            o = bres.get(cid + "O")
-            nontrivial = not (o and E.unhex_list(o[1]) == c["bytes"])
-            feat = c["feat"]
-            what_kind = "zero-length-rle-run-value-bytes-not-consumed" if c["zrle"] else \
-                        "values:" + ("padded-final-group" if feat["pad"] else "multi-group-literal-run" if feat["multi"] else
-                                     "zero-length-run" if feat["zero"] else "mixed-runs")
-            desc = "bw=%d stream %s (%d runs, features %s) must decode to %s" % (bw, hexs(c["bytes"])[:100], feat["nruns"], feat, vals[:30])
-            r = bres.get(cid)
-            if r and (int(r[0]) != n or E.uncsv(r[1]) != vals):
-                viol("rle-dec:" + what_kind, "decode_all: %s, got %s values %s" % (desc, r[0], r[1][:100]), cid, c)
-            r = bres.get(cid + "S")
-            if r and r[0] != "b%d:%s" % (n, E.csv(vals)):
-                viol("rle-dec:" + what_kind, "streaming get_batch: %s, got %s" % (desc, r[0][:120]), cid, c)
-            r = bres.get(cid + "L")
-            if r and (int(r[0]) != n or E.uncsv(r[1]) != vals):
-                viol("rle-levels-dec:" + what_kind, "decode_levels: %s, got %s values %s" % (desc, r[0], r[1][:100]), cid, c)
-            r = bres.get(cid + "P")
-            if r:
-                if int(r[0]) != n or E.uncsv(r[2]) != vals:
-                    viol("rle-levels-dec:" + what_kind, "decode_levels_prefixed: %s, got %s values %s" % (desc, r[0], r[2][:100]), cid, c)
-                elif int(r[1]) != 4 + len(c["bytes"]):
-                    viol("rle-levels-prefixed:consumed", "bytes_consumed %s for a block of 4+%d" % (r[1], len(c["bytes"])), cid, c)
-        elif k == "delta":
-            L, vals = c["L"], c["vals"]
-            n = len(vals)
-            nontrivial = c["o"]["widen"] > 0 or c["o"]["unused"] != 0 or not c["std"] or c["maxw"] > 32
-            r = bres.get(cid)
-            if r:
-                dst, cons, out = int(r[0]), int(r[1]), r[2]
-                wide = c["maxw"] > 32
-                tag = "wide-deltas-byte-aligned" if wide else ("empty-sequence" if n == 0 else "values")
-                if dst != 0:
-                    if not c["std"]:
-                        other_geom_rejected += 1
-                    else:
-                        viol("delta-dec:%s" % (tag if tag != "values" else "rejects-legal-stream"),
-                             "delta decode L=%d n=%d opts %s widest miniblock %d bits: status %d" % (L, n, c["o"], c["maxw"], dst), cid, c)
-                else:
-                    if E.chunks(E.unhex_list(out), L) != vals:
-                        viol("delta-dec:" + tag, "delta decode L=%d n=%d opts %s widest miniblock %d bits returns other values" % (L, n, c["o"], c["maxw"]), cid, c)
-                    elif cons != len(c["bytes"]):
-                        viol("delta-dec:consumed", "bytes_consumed %d, stream is %d bytes (L=%d n=%d opts %s)" % (cons, len(c["bytes"]), L, n, c["o"]), cid, c)
-        elif k == "str":
-            strs = c["strs"]
-            n = len(strs)
-            nontrivial = c["pm"] != "max" or c["o"]["widen"] > 0 or c["o"]["unused"] != 0
-            for suf, name, key in (("A", "dlen", "dlen"), ("B", "dstr", "dstr")):
-                r = bres.get(cid + suf)
-                if not r:
-                    continue
-                dst, cons, out = int(r[0]), int(r[1]), r[2]
-                if dst != 0:
-                    viol("%s-dec:%s" % (name, "refuses-empty-sequence" if n == 0 else "rejects-legal-stream"),
-                         "%s decode of %d strings (opts %s, prefixes %s): status %d" % (name, n, c["o"], c["pm"], dst), cid, c)
-                elif E.unstrs(out) != strs:
-                    viol("%s-dec:values" % name, "%s decode of %d strings (opts %s, prefixes %s) returns other strings" % (name, n, c["o"], c["pm"]), cid, c)
-                elif cons != len(c[key]):
-                    viol("%s-dec:consumed" % name, "%s bytes_consumed %d, stream is %d bytes" % (name, cons, len(c[key])), cid, c)
-        elif k == "dict":
-            t, vals = c["t"], c["vals"]
-            nontrivial = c["style"] != 1 or True
-            r = bres.get(cid)
-            if r:
-                dst, out = int(r[0]), r[1]
-                if dst != 0 or E.chunks(E.unhex_list(out), E.PLAIN_W[t]) != vals:
-                    zr = c["style"] == 1
-                    viol("dict-dec:" + ("zero-length-rle-run-value-bytes-not-consumed" if zr else "values"),
-                         "dictionary decode type %d, %d entries, index width %d, run style %d: status %d / other values" % (t, c["dcount"], c["bw"], c["style"], dst), cid, c)
-        elif k == "bp":
-            vals = E.hyb_values(c)
-            r = bres.get(cid)
-            if r and (E.uncsv(r[1]) != vals or int(r[0]) != len(c["bytes"])):
-                viol("bitunpack:values", "bitunpack_32 bw=%d of %s: returned %s %s expected %s" % (c["bw"], hexs(c["bytes"])[:80], r[0], r[1][:80], vals[:20]), cid, c)
-        elif k == "bitw":
-            vals = [E.limbs_int(i["v"]) for i in c["items"]]
-            r = bres.get(cid)
-            if r and E.uncsv(r[0]) != vals:
-                viol("bit-reader:values", "bit_reader on %s widths %s: got %s expected %s" % (hexs(c["bytes"])[:60], [i["w"] for i in c["items"]][:12], r[0][:80], vals[:8]), cid, c)
-        elif k == "plain":
-            t, vals = c["t"], c["vals"]
-            r = bres.get(cid)
-            if r:
-                ret, payload = int(r[0]), r[1]
-                got = E.unstrs(payload) if t == 6 else E.unhex_list(payload) if t == 0 else E.chunks(E.unhex_list(payload), E.PLAIN_W.get(t, c["tlen"]))
-                if ret != len(c["bytes"]) or got != vals:
-                    viol("plain-dec:values", "decode_plain type %d n=%d returned %d (stream %d bytes) / other values" % (t, len(vals), ret, len(c["bytes"])), cid, c)
-        elif k == "bss":
-            K, vals = c["K"], c["vals"]
-            for suf in ("", "F", "D"):
-                r = bres.get(cid + suf)
-                if r and (int(r[0]) != 0 or E.chunks(E.unhex_list(r[1]), K) != vals):
-                    viol("bss-dec:values", "byte_stream_split decode%s K=%d n=%d status %s / other values" % (suf, K, len(vals), r[0]), cid, c)
+        nontrivial = judge_alt(cid, c, bres, viol, bstats)
         if len(chk.violations) > before:
             st["mismatch"] += 1
         chk.count(("dec", k, json_key(c)), nontrivial and E.case_len(c) >= 2)
-    fam_b["delta"]["other_geometry_rejected_not_a_violation"] = other_geom_rejected
+    fam_b["delta"]["other_geometry_rejected_not_a_violation"] = bstats.get("other_geom_rejected", 0)
     for f in bfaults:
         base = f.case_id.rstrip("SLPABFDO")
         c = bown.get(base)
@@ -340,6 +222,142 @@ def run(chk, tier, replay):
                        "stream decoded by every carquet entry point of the family. distinct non-trivial = distinct (encoding, parameters, values, form) "
                        "with >= 2 values and, in direction b, a form that differs from what carquet's own encoder writes "
                        "(hybrid: bytes compared; DELTA/strings: non-default option or stored width > 32)")
+
+
+def alt_lines(cid, c):
+    """harness lines that feed one specification-written stream to every decoder entry point of its family"""
+    k = c["kind"]
+    blines = []
+    if k == "hyb":
+        blines += hyb_dec_lines(cid, c)
+    elif k == "delta":
+        blines.append("%s d%d_dec %d %s" % (cid, 32 if c["L"] == 4 else 64, len(c["vals"]), hexs(c["bytes"])))
+    elif k == "str":
+        n = len(c["strs"])
+        blines.append("%sA dl_dec %d %s" % (cid, n, hexs(c["dlen"])))
+        blines.append("%sB ds_dec %d %d %s" % (cid, n, sum(len(s) for s in c["strs"]), hexs(c["dstr"])))
+    elif k == "dict":
+        blines.append("%s dict_dec %d %d %s %s %d" % (cid, c["t"], c["dcount"], hexs(c["dict"]), hexs(c["idx"]), len(c["vals"])))
+    elif k == "bp":
+        n, bw = len(c["w"]), c["bw"]
+        groups = (n + 7) // 8
+        blines.append("%s bp_unp %d %d %s" % (cid, bw, n, hexs(list(c["bytes"]) + [0] * (groups * bw - len(c["bytes"])))))
+    elif k == "bitw":
+        blines.append("%s br_rd %s %s" % (cid, hexs(c["bytes"]), E.csv([i["w"] for i in c["items"]])))
+    elif k == "plain":
+        blines.append("%s plain_dec %d %d %d %s" % (cid, c["t"], c["tlen"], len(c["vals"]), hexs(c["bytes"])))
+    elif k == "bss":
+        K, n = c["K"], len(c["vals"])
+        blines.append("%s bss_dec g %d %d %s" % (cid, K, n, hexs(c["bytes"])))
+        if K == 4:
+            blines.append("%sF bss_dec f 4 %d %s" % (cid, n, hexs(c["bytes"])))
+        if K == 8:
+            blines.append("%sD bss_dec d 8 %d %s" % (cid, n, hexs(c["bytes"])))
+
+    return blines
+
+
+def judge_alt(cid, c, bres, viol, stats):
+    """direction b: compare what carquet's decoders returned for one specification-written stream with the
+    values the specification assigns; returns the non-trivial flag for the distinct count"""
+    k = c["kind"]
+    nontrivial = True
+    if k == "hyb":
+        vals = E.hyb_values(c)
+        n, bw = len(vals), c["bw"]
+        o = bres.get(cid + "O")
+        nontrivial = not (o and E.unhex_list(o[1]) == c["bytes"])
+        feat = c["feat"]
+        what_kind = "zero-length-rle-run-value-bytes-not-consumed" if c["zrle"] else \
+                    "values:" + ("padded-final-group" if feat["pad"] else "multi-group-literal-run" if feat["multi"] else
+                                 "zero-length-run" if feat["zero"] else "mixed-runs")
+        desc = "bw=%d stream %s (%d runs, features %s) must decode to %s" % (bw, hexs(c["bytes"])[:100], feat["nruns"], feat, vals[:30])
+        r = bres.get(cid)
+        if r and (int(r[0]) != n or E.uncsv(r[1]) != vals):
+            viol("rle-dec:" + what_kind, "decode_all: %s, got %s values %s" % (desc, r[0], r[1][:100]), cid, c)
+        r = bres.get(cid + "S")
+        if r and r[0] != "b%d:%s" % (n, E.csv(vals)):
+            viol("rle-dec:" + what_kind, "streaming get_batch: %s, got %s" % (desc, r[0][:120]), cid, c)
+        r = bres.get(cid + "L")
+        if r and (int(r[0]) != n or E.uncsv(r[1]) != vals):
+            viol("rle-levels-dec:" + what_kind, "decode_levels: %s, got %s values %s" % (desc, r[0], r[1][:100]), cid, c)
+        r = bres.get(cid + "P")
+        if r:
+            if int(r[0]) != n or E.uncsv(r[2]) != vals:
+                viol("rle-levels-dec:" + what_kind, "decode_levels_prefixed: %s, got %s values %s" % (desc, r[0], r[2][:100]), cid, c)
+            elif int(r[1]) != 4 + len(c["bytes"]):
+                viol("rle-levels-prefixed:consumed", "bytes_consumed %s for a block of 4+%d" % (r[1], len(c["bytes"])), cid, c)
+    elif k == "delta":
+        L, vals = c["L"], c["vals"]
+        n = len(vals)
+        nontrivial = c["o"]["widen"] > 0 or c["o"]["unused"] != 0 or not c["std"] or c["maxw"] > 32
+        r = bres.get(cid)
+        if r:
+            dst, cons, out = int(r[0]), int(r[1]), r[2]
+            wide = c["maxw"] > 32
+            tag = "wide-deltas-byte-aligned" if wide else ("empty-sequence" if n == 0 else "values")
+            if dst != 0:
+                if not c["std"]:
+                    stats["other_geom_rejected"] = stats.get("other_geom_rejected", 0) + 1
+                else:
+                    viol("delta-dec:%s" % (tag if tag != "values" else "rejects-legal-stream"),
+                         "delta decode L=%d n=%d opts %s widest miniblock %d bits: status %d" % (L, n, c["o"], c["maxw"], dst), cid, c)
+            else:
+                if E.chunks(E.unhex_list(out), L) != vals:
+                    viol("delta-dec:" + tag, "delta decode L=%d n=%d opts %s widest miniblock %d bits returns other values" % (L, n, c["o"], c["maxw"]), cid, c)
+                elif cons != len(c["bytes"]):
+                    viol("delta-dec:consumed", "bytes_consumed %d, stream is %d bytes (L=%d n=%d opts %s)" % (cons, len(c["bytes"]), L, n, c["o"]), cid, c)
+    elif k == "str":
+        strs = c["strs"]
+        n = len(strs)
+        nontrivial = c["pm"] != "max" or c["o"]["widen"] > 0 or c["o"]["unused"] != 0
+        for suf, name, key in (("A", "dlen", "dlen"), ("B", "dstr", "dstr")):
+            r = bres.get(cid + suf)
+            if not r:
+                continue
+            dst, cons, out = int(r[0]), int(r[1]), r[2]
+            if dst != 0:
+                viol("%s-dec:%s" % (name, "refuses-empty-sequence" if n == 0 else "rejects-legal-stream"),
+                     "%s decode of %d strings (opts %s, prefixes %s): status %d" % (name, n, c["o"], c["pm"], dst), cid, c)
+            elif E.unstrs(out) != strs:
+                viol("%s-dec:values" % name, "%s decode of %d strings (opts %s, prefixes %s) returns other strings" % (name, n, c["o"], c["pm"]), cid, c)
+            elif cons != len(c[key]):
+                viol("%s-dec:consumed" % name, "%s bytes_consumed %d, stream is %d bytes" % (name, cons, len(c[key])), cid, c)
+    elif k == "dict":
+        t, vals = c["t"], c["vals"]
+        nontrivial = c["style"] != 1 or True
+        r = bres.get(cid)
+        if r:
+            dst, out = int(r[0]), r[1]
+            if dst != 0 or E.chunks(E.unhex_list(out), E.PLAIN_W[t]) != vals:
+                zr = c["style"] == 1
+                viol("dict-dec:" + ("zero-length-rle-run-value-bytes-not-consumed" if zr else "values"),
+                     "dictionary decode type %d, %d entries, index width %d, run style %d: status %d / other values" % (t, c["dcount"], c["bw"], c["style"], dst), cid, c)
+    elif k == "bp":
+        vals = E.hyb_values(c)
+        r = bres.get(cid)
+        if r and (E.uncsv(r[1]) != vals or int(r[0]) != len(c["bytes"])):
+            viol("bitunpack:values", "bitunpack_32 bw=%d of %s: returned %s %s expected %s" % (c["bw"], hexs(c["bytes"])[:80], r[0], r[1][:80], vals[:20]), cid, c)
+    elif k == "bitw":
+        vals = [E.limbs_int(i["v"]) for i in c["items"]]
+        r = bres.get(cid)
+        if r and E.uncsv(r[0]) != vals:
+            viol("bit-reader:values", "bit_reader on %s widths %s: got %s expected %s" % (hexs(c["bytes"])[:60], [i["w"] for i in c["items"]][:12], r[0][:80], vals[:8]), cid, c)
+    elif k == "plain":
+        t, vals = c["t"], c["vals"]
+        r = bres.get(cid)
+        if r:
+            ret, payload = int(r[0]), r[1]
+            got = E.unstrs(payload) if t == 6 else E.unhex_list(payload) if t == 0 else E.chunks(E.unhex_list(payload), E.PLAIN_W.get(t, c["tlen"]))
+            if ret != len(c["bytes"]) or got != vals:
+                viol("plain-dec:values", "decode_plain type %d n=%d returned %d (stream %d bytes) / other values" % (t, len(vals), ret, len(c["bytes"])), cid, c)
+    elif k == "bss":
+        K, vals = c["K"], c["vals"]
+        for suf in ("", "F", "D"):
+            r = bres.get(cid + suf)
+            if r and (int(r[0]) != 0 or E.chunks(E.unhex_list(r[1]), K) != vals):
+                viol("bss-dec:values", "byte_stream_split decode%s K=%d n=%d status %s / other values" % (suf, K, len(vals), r[0]), cid, c)
+    return nontrivial
 
 
 def json_key(c):
